@@ -12,6 +12,7 @@ import (
 	"golang.org/x/tools/go/ssa/ssautil"
 
 	"verif/checker/boundx"
+	"verif/checker/inl"
 	"verif/checker/ssax"
 )
 
@@ -201,5 +202,52 @@ func runControls(checkerDir string) ([]string, error) {
 		return fail("edge-fact control: bad=%v good=%v", gated("GateBad"), gated("GateGood"))
 	}
 	fired = append(fired, "edge-facts")
+	// facts about phis (unfolded through the merge) feed the bounds engine
+	if unproved("PhiBad") == 0 || unproved("PhiGood") != 0 {
+		return fail("phi-fact control: bad=%d good=%d", unproved("PhiBad"), unproved("PhiGood"))
+	}
+	fired = append(fired, "phi-facts")
+	// counted loops
+	rangeOf := func(name string) (int64, int64, string) {
+		gr := g(name)
+		for _, c := range gr.Calls(sp.Pkg.Path() + ".use2") {
+			return bodyRange(gr, c, c.Call.Args[0])
+		}
+		return 0, 0, "no call"
+	}
+	for _, n := range []string{"CountGood", "CountClassic"} {
+		if lo, hi, why := rangeOf(n); why != "" || lo != 0 || hi != 256 {
+			return fail("counted-loop control: %s gives [%d,%d) %s", n, lo, hi, why)
+		}
+	}
+	if lo, hi, why := rangeOf("CountBad"); why != "" || lo != 0 || hi != 255 {
+		return fail("counted-loop control: CountBad gives [%d,%d) %s", lo, hi, why)
+	}
+	fired = append(fired, "counted-loops")
+	// the normaliser dissolves a function the reference list does not have
+	overlay, _, _ := inl.Normalize(pkgs, checkerDir, "verif/checker/fixtures/ctl", nil)
+	if overlay == nil {
+		return fail("normaliser control: nothing was rewritten")
+	}
+	npkgs, err := packages.Load(&packages.Config{Mode: packages.LoadAllSyntax, Dir: checkerDir, Env: env, Overlay: overlay}, "./fixtures/ctl")
+	if err != nil || len(npkgs) != 1 || len(npkgs[0].Errors) > 0 {
+		return fail("normaliser control: rewritten fixture does not load: %v %v", err, npkgs[0].Errors)
+	}
+	nprog, nsps := ssautil.AllPackages(npkgs, ssa.InstantiateGenerics)
+	nprog.Build()
+	ng := ssax.NewGraph(nsps[0].Func("InlCaller"), nr)
+	if len(ng.Calls("os.Open")) != 1 || len(ng.Calls(sp.Pkg.Path()+".inlOpen")) != 0 {
+		return fail("normaliser control: os.Open calls in InlCaller=%d, calls of the helper=%d", len(ng.Calls("os.Open")), len(ng.Calls(sp.Pkg.Path()+".inlOpen")))
+	}
+	// and the merged error is seen through: Close is reached only when the open succeeded
+	okThrough := false
+	for _, c := range ng.Calls("(*os.File).Close") {
+		open := ng.Calls("os.Open")[0]
+		okThrough = ssax.KnownNil(ng.FactsAtInstr(c), ssax.Extracted(open, 1), true) || ng.Dominates(open, c)
+	}
+	if !okThrough {
+		return fail("normaliser control: facts do not carry through the inlined helper")
+	}
+	fired = append(fired, "normaliser")
 	return fired, nil
 }
